@@ -127,6 +127,15 @@ func writeDocFiles() {
 		fb, _, ferr := f.Bytes()
 		put("pdfSharedRes", ".pdf", fb, ferr)
 	}
+	// six pages, each with its own marker: for selections built step by step on shared base extractors
+	{
+		var six [][]pdfdoc.Placed
+		for p := 1; p <= 6; p++ {
+			six = append(six, []pdfdoc.Placed{{X: 72, Y: 700, Size: 12, Text: fmt.Sprintf("marker page %d", p)}, {X: 72, Y: 680, Size: 12, Text: fmt.Sprintf("second line of page %d", p)}})
+		}
+		sb, serr := pdfdoc.BuildSimple(six, 612, 792)
+		put("pdfSix", ".pdf", sb, serr)
+	}
 	var placed [][]pdfdoc.Placed
 	for p := 0; p < 3; p++ {
 		pg := []pdfdoc.Placed{{X: 72, Y: 760, Size: 10, Text: "Running Header"}, {X: 300, Y: 25, Size: 10, Text: fmt.Sprintf("Page %d", p+1)}}
@@ -343,10 +352,68 @@ func handleDoc(name string) *hdoc {
 	}}
 }
 
+// forkDoc: a selection built step by step gives the same text whether its extractor is the only one derived from
+// the base or has siblings derived from the same base - before it, after it, or at the same time on another goroutine.
+func forkDoc(name string) *hdoc {
+	path := docFilePaths[name]
+	text := func(e *tabula.Extractor) string {
+		s, _, err := e.Text()
+		if err != nil {
+			return errStr(err)
+		}
+		return s
+	}
+	chain := func(build func(*tabula.Extractor) *tabula.Extractor) func(sib string) func() string {
+		return func(sib string) func() string {
+			return func() string {
+				base := build(tabula.Open(path))
+				switch sib {
+				case "":
+					return text(base.Pages(4))
+				case "after": // a sibling is derived after ours
+					a := base.Pages(4)
+					b := base.Pages(5)
+					_ = b
+					return text(a)
+				case "before":
+					b := base.Pages(5)
+					a := base.Pages(4)
+					_ = b
+					return text(a)
+				case "used": // the sibling is also used
+					a := base.Pages(4)
+					b := base.Pages(6).ByColumn()
+					text(b)
+					return text(a)
+				default: // derived and used at the same time
+					var wg sync.WaitGroup
+					var ra string
+					wg.Add(2)
+					go func() { defer wg.Done(); ra = text(base.Pages(4)) }()
+					go func() { defer wg.Done(); text(base.Pages(5)) }()
+					wg.Wait()
+					return ra
+				}
+			}
+		}
+	}
+	r13 := chain(func(e *tabula.Extractor) *tabula.Extractor { return e.PageRange(1, 3) })
+	p123 := chain(func(e *tabula.Extractor) *tabula.Extractor { return e.Pages(1).Pages(2).Pages(3) })
+	p12 := chain(func(e *tabula.Extractor) *tabula.Extractor { return e.Pages(1, 2).ExcludeHeaders() })
+	return &hdoc{name: "fork-" + name, run: map[string]func() string{
+		"range13+4": r13(""), "range13+4@after": r13("after"), "range13+4@before": r13("before"), "range13+4@used": r13("used"), "range13+4@par": r13("par"),
+		"p1p2p3+4": p123(""), "p1p2p3+4@after": p123("after"), "p1p2p3+4@before": p123("before"), "p1p2p3+4@used": p123("used"), "p1p2p3+4@par": p123("par"),
+		"p12x+4": p12(""), "p12x+4@after": p12("after"), "p12x+4@used": p12("used"), "p12x+4@par": p12("par"),
+	}}
+}
+
 func init() {
 	fileDocGens = append(fileDocGens, func(salt int64) []*hdoc {
 		docFilesOnce.Do(writeDocFiles)
 		var out []*hdoc
+		if docFilePaths["pdfSix"] != "" {
+			out = append(out, forkDoc("pdfSix"))
+		}
 		for _, n := range []string{"pdfA", "pdfSharedRes", "pdfKidsLoop", "pdfKidsMissing", "pdfBadStream"} {
 			if docFilePaths[n] != "" {
 				out = append(out, handleDoc(n))
